@@ -331,6 +331,7 @@ def r_domain(P, R):
         level_map_by_name(P, R)
     if R.prop == 'C12':
         pickle_level_map(P, R)
+        terminal_roots(P, R)
 r_domain.NAME = 'R-DOMAIN'
 
 
@@ -410,6 +411,51 @@ def level_map_by_name(P, R):
         else:
             R.undecided('R-DOMAIN', g.qualname, 'level map',
                         'unrecognised form')
+
+
+def terminal_roots(P, R):
+    """A dumped root may be the constant: the map from file nodes to
+    nodes of the manager must cover the terminal (or the lookup must be
+    guarded by a terminal test)."""
+    f = P.func('dd.bdd.BDD.load.map_node')
+    params = f.params
+    u = params[0] if params else 'u'
+    guarded = False
+    for path in pa.function_paths(f.node):
+        seen_guard = False
+        for it in path:
+            if it[0] == 'test':
+                t = au.src(it[1]).replace(' ', '')
+                if t in (f'abs({u})==1', f'{u}in(1,-1)', f'{u}in(-1,1)',
+                         f'abs({u})notinumap'):
+                    seen_guard = True
+            if it[0] == 'stmt' and any(
+                    isinstance(n, ast.Subscript) and au.is_name(
+                        n.value, 'umap') for n in ast.walk(it[1])):
+                if seen_guard:
+                    guarded = True
+    lp = P.func('dd.bdd.BDD._load_pickle')
+    seeded = False
+    for n in au.walk_no_defs(lp.node):
+        if isinstance(n, ast.Assign) and au.is_name(
+                n.targets[0], 'umap'):
+            v = n.value
+            if isinstance(v, ast.Dict) and any(
+                    au.const_int(k) == 1 for k in v.keys if k is not None):
+                seeded = True
+            if isinstance(v, ast.Call) and au.call_name(v) == 'dict' and \
+                    v.args:
+                seeded = True
+    if guarded or seeded:
+        R.holds('R-DOMAIN', f.qualname, 'a constant root is translated '
+                '(the node map covers the terminal)')
+    else:
+        R.violation(
+            'R-DOMAIN', 'terminal-unmapped', f.qualname, 'umap',
+            'the roots of a pickle are translated by `umap[abs(u)]`, but '
+            'the map is created empty and _load never records the '
+            'terminal: a dump whose roots include TRUE or FALSE cannot be '
+            'loaded (KeyError: 1)', unit=f.unit.rel, line=f.lineno)
 
 
 def pickle_level_map(P, R):
